@@ -1504,7 +1504,29 @@ class Py2Cpp(ITranspiler):
 		return self.render(node, f'literal/{node.classification}', vars={'value': node.tokens})
 
 	def on_string(self, node: defs.String) -> str:
-		return self.render(node, f'literal/{node.classification}', vars={'value': node.tokens})
+		return self.render(node, f'literal/{node.classification}', vars={'value': self.to_double_quoted(node.tokens)})
+
+	def to_double_quoted(self, literal: str) -> str:
+		"""文字列リテラルをダブルクォートで囲った1行の書式に変換 Note: ```'a"b'``` -> ```"a\\"b"```, ```'''a'''``` -> ```"a"```"""
+		quote = literal[:3] if len(literal) >= 6 and literal[:3] in ['\'\'\'', '"""'] and literal.endswith(literal[:3]) else literal[:1]
+		if quote == '"':
+			return literal
+
+		body = literal[len(quote):-len(quote)]
+		converted = ''
+		index = 0
+		while index < len(body):
+			char = body[index]
+			if char == '\\' and index + 1 < len(body):
+				# エスケープシーケンスはそのまま出力 ※`\\'`のみエスケープを解除
+				converted += body[index + 1] if body[index + 1] == "'" else body[index:index + 2]
+				index += 2
+				continue
+
+			converted += {'"': '\\"', '\n': '\\n', '\t': '\\t'}.get(char, char)
+			index += 1
+
+		return f'"{converted}"'
 
 	def on_doc_string(self, node: defs.DocString) -> str:
 		return self.render(node, f'literal/{node.classification}', vars={'data': node.data})
